@@ -276,21 +276,30 @@ def c13_r3(ctx):
     ctx.saw(tr)
     fa = guards.Facts(tr)
     adj = {}
+    # the two working variables, by role: the names that receive to_sortable(..., start) / to_sortable(..., end)  (the parameters
+    # themselves in the reference spelling, `sortstart` / `sortend` when the conversion is given its own name)
+    role_var = {"start": "start", "end": "end"}
+    for st in ast.walk(tr.node):
+        if isinstance(st, ast.Assign) and len(st.targets) == 1 and isinstance(st.targets[0], ast.Name) and "to_sortable" in norm.canon(st.value):
+            for c_ in norm.calls_in(st.value):
+                if norm.call_name(c_) == "to_sortable" and c_.args and norm.canon(c_.args[-1]) in ("start", "end"):
+                    role_var[norm.canon(c_.args[-1])] = st.targets[0].id
+    back = dict((v_, k_) for k_, v_ in role_var.items())
     for n in fa.g.nodes:
         a = n.ast
-        if n.kind == "stmt" and isinstance(a, ast.AugAssign) and norm.canon(a.target) in ("start", "end") and norm.canon(a.value) == "1":
-            adj[norm.canon(a.target)] = (type(a.op).__name__, sorted(t for (p, t) in (fa.at(n) or []) if p == "T"))
+        if n.kind == "stmt" and isinstance(a, ast.AugAssign) and norm.canon(a.target) in back and norm.canon(a.value) == "1":
+            adj[back[norm.canon(a.target)]] = (type(a.op).__name__, sorted(t for (p, t) in (fa.at(n) or []) if p == "T"))
     ok = adj.get("start", ("", []))[0] == "Add" and "startexcl" in adj.get("start", ("", []))[1] and \
         adj.get("end", ("", []))[0] == "Sub" and "endexcl" in adj.get("end", ("", []))[1]
     ctx.ob(tr, ok, "an exclusive start adds 1 and an exclusive end subtracts 1, after conversion to the sortable value", detail=str(adj))
     order_ok = True
-    for nm in ("start", "end"):
+    for nm in (role_var["start"], role_var["end"]):
         tpos = norm.source_pos(tr.node)
         conv = [tpos(st) for st in ast.walk(tr.node) if isinstance(st, ast.Assign) and norm.canon(st.targets[0]) == nm and "to_sortable" in norm.canon(st.value)]
         aug = [tpos(st) for st in ast.walk(tr.node) if isinstance(st, ast.AugAssign) and norm.canon(st.target) == nm]
         order_ok = order_ok and bool(conv) and bool(aug) and max(conv) < min(aug)
     ctx.ob(tr, order_ok, "the +-1 adjustment happens on the converted (sortable) value")
-    dflt = [norm.canon(st.value) for st in ast.walk(tr.node) if isinstance(st, ast.Assign) and norm.canon(st.targets[0]) == "end" and "to_sortable" not in norm.canon(st.value)]
+    dflt = [norm.canon(st.value) for st in ast.walk(tr.node) if isinstance(st, ast.Assign) and norm.canon(st.targets[0]) == role_var["end"] and "to_sortable" not in norm.canon(st.value)]
     ctx.ob(tr, dflt == ["((2 ** intsize) - 1)"], "an open end is the largest sortable value 2**intsize - 1", detail=str(dflt))
 
 
